@@ -50,6 +50,49 @@ pub trait SimDevice: Send + Sync {
     fn read(&self, offset: u64, len: usize) -> io::Result<Vec<u8>>;
     fn write(&self, offset: u64, data: &[u8]) -> io::Result<()>;
     fn fsync(&self) -> io::Result<()>;
+    /// Simulated io_uring in front of this device; `None` (the default) makes `DiskIO` take
+    /// its synchronous path.
+    fn ring(&self) -> Option<Arc<dyn SimRing>> {
+        None
+    }
+}
+
+/// One queued write as the kernel sees it: a raw pointer it will read from at some later time.
+#[derive(Clone, Copy, Debug)]
+pub struct RingSqe {
+    pub ptr: *const u8,
+    pub len: u32,
+    pub offset: u64,
+    pub user_data: u64,
+}
+// The pointer is only ever read by the simulated kernel, which is what a real kernel does.
+unsafe impl Send for RingSqe {}
+unsafe impl Sync for RingSqe {}
+
+#[derive(Clone, Copy, Debug)]
+pub struct RingCqe {
+    pub user_data: u64,
+    pub result: i32,
+}
+
+/// The kernel side of a simulated io_uring. Implemented by the harness.
+pub trait SimRing: Send + Sync {
+    /// Submission queue capacity.
+    fn capacity(&self) -> usize;
+    /// Whether the file behaves as if opened with O_DIRECT (alignment is then enforced).
+    fn direct_io(&self) -> bool;
+    /// `false` makes this push fail as if the submission queue were full.
+    fn push_allowed(&self, queued: usize) -> bool;
+    /// `io_uring_enter`: hands the queued entries to the kernel and waits for `want`
+    /// completions, which are appended to `completions`.
+    fn enter(
+        &self,
+        submitted: Vec<RingSqe>,
+        want: usize,
+        completions: &mut std::collections::VecDeque<RingCqe>,
+    ) -> io::Result<usize>;
+    /// The ring was closed; entries the kernel took and has not completed stay its own.
+    fn closed(&self);
 }
 
 static CONTROLLER: parking_lot::RwLock<Option<Arc<dyn Controller>>> =
@@ -585,6 +628,200 @@ pub mod time {
                     let now = super::now_nanos().unwrap_or(*start);
                     Duration::from_nanos(now.saturating_sub(*start))
                 }
+            }
+        }
+    }
+}
+
+pub mod uring {
+    //! The subset of the `io_uring` crate's API that `storage::io` uses, in front of a
+    //! simulated kernel (`SimRing`). Without a simulated device no ring can be built, so
+    //! `DiskIO` falls back to its synchronous path.
+    use super::{RingCqe, RingSqe, SimRing};
+    use std::collections::VecDeque;
+    use std::io;
+    use std::sync::Arc;
+
+    pub struct IoUring {
+        kernel: Arc<dyn SimRing>,
+        sq: Vec<RingSqe>,
+        cq: VecDeque<RingCqe>,
+    }
+
+    pub struct Builder;
+
+    impl Builder {
+        pub fn setup_sqpoll(&mut self, _idle: u32) -> &mut Self {
+            self
+        }
+
+        pub fn build(&self, _entries: u32) -> io::Result<IoUring> {
+            Err(io::Error::new(
+                io::ErrorKind::Unsupported,
+                "no kernel ring in a verification build",
+            ))
+        }
+    }
+
+    pub struct Submitter;
+
+    impl Submitter {
+        pub fn register_probe(&self, _probe: &mut Probe) -> io::Result<()> {
+            Ok(())
+        }
+    }
+
+    pub struct Probe;
+
+    impl Probe {
+        #[allow(clippy::new_without_default)]
+        pub fn new() -> Self {
+            Probe
+        }
+
+        pub fn is_supported(&self, _code: u8) -> bool {
+            true
+        }
+    }
+
+    impl IoUring {
+        pub fn builder() -> Builder {
+            Builder
+        }
+
+        /// The ring of a simulated device, if it has one.
+        pub fn attach(kernel: Option<Arc<dyn SimRing>>) -> Option<IoUring> {
+            kernel.map(|kernel| IoUring {
+                kernel,
+                sq: Vec::new(),
+                cq: VecDeque::new(),
+            })
+        }
+
+        pub fn direct_io(&self) -> bool {
+            self.kernel.direct_io()
+        }
+
+        pub fn submitter(&self) -> Submitter {
+            Submitter
+        }
+
+        pub fn submission(&mut self) -> SubmissionQueue<'_> {
+            SubmissionQueue { ring: self }
+        }
+
+        pub fn completion(&mut self) -> CompletionQueue<'_> {
+            CompletionQueue { ring: self }
+        }
+
+        pub fn submit_and_wait(&mut self, want: usize) -> io::Result<usize> {
+            let submitted = std::mem::take(&mut self.sq);
+            self.kernel.enter(submitted, want, &mut self.cq)
+        }
+    }
+
+    impl Drop for IoUring {
+        fn drop(&mut self) {
+            self.kernel.closed();
+        }
+    }
+
+    pub struct SubmissionQueue<'a> {
+        ring: &'a mut IoUring,
+    }
+
+    #[derive(Debug)]
+    pub struct PushError;
+
+    impl SubmissionQueue<'_> {
+        /// # Safety
+        /// As for the real ring: the memory the entry points to must stay valid until the
+        /// kernel has completed the entry.
+        pub unsafe fn push(&mut self, entry: &squeue::Entry) -> Result<(), PushError> {
+            let queued = self.ring.sq.len();
+            if queued >= self.ring.kernel.capacity() || !self.ring.kernel.push_allowed(queued) {
+                return Err(PushError);
+            }
+            self.ring.sq.push(entry.0);
+            Ok(())
+        }
+    }
+
+    pub struct CompletionQueue<'a> {
+        ring: &'a mut IoUring,
+    }
+
+    impl Iterator for CompletionQueue<'_> {
+        type Item = cqueue::Entry;
+
+        fn next(&mut self) -> Option<cqueue::Entry> {
+            self.ring.cq.pop_front().map(cqueue::Entry)
+        }
+    }
+
+    pub mod squeue {
+        #[derive(Clone, Copy, Debug)]
+        pub struct Entry(pub(super) super::RingSqe);
+
+        impl Entry {
+            pub fn user_data(mut self, user_data: u64) -> Entry {
+                self.0.user_data = user_data;
+                self
+            }
+        }
+    }
+
+    pub mod cqueue {
+        #[derive(Clone, Copy, Debug)]
+        pub struct Entry(pub(super) super::RingCqe);
+
+        impl Entry {
+            pub fn user_data(&self) -> u64 {
+                self.0.user_data
+            }
+
+            pub fn result(&self) -> i32 {
+                self.0.result
+            }
+        }
+    }
+
+    pub mod types {
+        pub struct Fd(pub std::os::unix::io::RawFd);
+    }
+
+    pub mod opcode {
+        use super::squeue::Entry;
+        use super::types::Fd;
+        use super::RingSqe;
+
+        pub struct Read;
+
+        impl Read {
+            pub const CODE: u8 = 22;
+        }
+
+        pub struct Write(RingSqe);
+
+        impl Write {
+            pub const CODE: u8 = 23;
+
+            pub fn new(_fd: Fd, ptr: *const u8, len: u32) -> Write {
+                Write(RingSqe {
+                    ptr,
+                    len,
+                    offset: 0,
+                    user_data: 0,
+                })
+            }
+
+            pub fn offset(mut self, offset: u64) -> Write {
+                self.0.offset = offset;
+                self
+            }
+
+            pub fn build(self) -> Entry {
+                Entry(self.0)
             }
         }
     }
